@@ -76,6 +76,11 @@ func run(c *vk.Ctx, can *rig.Canary, sc scen, idx int) {
 		fstore = &trFailStore{Storage: memory.NewStorage()}
 		cfg.Counter, cfg.Messages = fstore, fstore
 	}
+	if strings.HasSuffix(sc.answer, "+logon-timeout-3s") {
+		// the application configured a short LogonTimeout: it concerns the time until the logon, not a logged-on session
+		sc.answer = strings.TrimSuffix(sc.answer, "+logon-timeout-3s")
+		cfg.LogonTimeout = 3 * time.Second
+	}
 	var inIDs [2]int64
 	removeObservers := strings.HasSuffix(sc.answer, "+observers-removed")
 	if removeObservers {
@@ -443,6 +448,11 @@ func main() {
 				scs = append(scs, scen{role, 1, p, a, 0})
 			}
 		}
+	}
+	// a short LogonTimeout (3 s) that elapses while the logged-on session is waiting for the answer to its TestRequest
+	for _, role := range []rig.Role{rig.Acceptor, rig.Initiator} {
+		scs = append(scs, scen{role, 1, "answer-90%", "heartbeat+logon-timeout-3s", 0})
+		scs = append(scs, scen{role, 1, "answer-50%", "app+logon-timeout-3s", 0})
 	}
 	// silence around a Logout: the connection stays open, the peer says nothing more
 	for _, role := range []rig.Role{rig.Acceptor, rig.Initiator} {
